@@ -7,8 +7,8 @@ from vlib import hexs
 SCHEMA = """
 CREATE TABLE t (id INTEGER PRIMARY KEY, a INT, b INT, c TEXT);
 CREATE TABLE u (id INTEGER PRIMARY KEY, a INT, d INT);
-INSERT INTO t VALUES (1, 1, 10, 'x'), (2, 2, NULL, 'y'), (3, NULL, 30, NULL), (4, 2, 10, 'X'), (5, 3, 5, 'zz');
-INSERT INTO u VALUES (1, 1, 7), (2, 2, NULL), (3, 9, 9), (4, NULL, 1);
+INSERT INTO t VALUES (1, 1, 10, 'x'), (2, 2, NULL, 'y'), (3, NULL, 30, NULL), (4, 2, 10, 'X'), (5, 3, 5, 'zz'), (6, NULL, NULL, 'n');
+INSERT INTO u VALUES (1, 1, 7), (2, 2, NULL), (3, 9, 9), (4, NULL, 1), (5, NULL, NULL);
 """
 TABLES = {"t": ["id", "a", "b", "c"], "u": ["id", "a", "d"]}
 INT_COLS = {"t": ["id", "a", "b"], "u": ["id", "a", "d"]}
@@ -110,6 +110,12 @@ class SG:
         for _ in range(r.choice([0, 1, 1])):
             # a sort key must not be a bare integer literal (SQL reads that as a column position)
             e = "(bin add %s %s)" % (self.col(a, r.choice(INT_COLS[tbl])), self.int_expr(tbl, 1, alias))
+            kk = r.random()
+            if kk < 0.25:
+                e = self.col(a, r.choice(INT_COLS[tbl][1:]))       # a nullable column itself
+            elif kk < 0.45:
+                c1, c2 = INT_COLS[tbl][1], INT_COLS[tbl][2]
+                e = r.choice(["(fn ifnull %s %s)", "(fn coalesce %s %s)"]) % (self.col(a, c1), self.col(a, c2))
             k = r.random()
             if k < 0.5:
                 out.append("(orderby %s %s)" % (e, r.choice(["asc", "desc"])))
@@ -318,7 +324,9 @@ class SG:
         if frm:
             cs.append("(andwhere (bin eq %s %s))" % (self.col(tbl, "id"), self.col("o", "id")))
         cs += self.where(tbl)
-        if (not self.portable) and not frm and r.random() < 0.25:
+        if (not self.portable) and not frm and r.random() < 0.35:
+            if r.random() < 0.6:
+                cs.append("(orderby %s %s %s)" % (self.col(tbl, INT_COLS[tbl][1]), r.choice(["asc", "desc"]), r.choice(["first", "last"])))
             cs.append("(orderby %s %s)" % (self.col(tbl, "id"), r.choice(["asc", "desc"])))
             cs.append("(limit %d)" % r.choice([1, 2]))
         return "(update %s)" % " ".join(cs + self.returning(tbl)), False
@@ -327,7 +335,9 @@ class SG:
         r = self.r
         tbl = r.choice(["t", "u"])
         cs = ["(from (t %s))" % h(tbl)] + self.where(tbl)
-        if (not self.portable) and r.random() < 0.25:
+        if (not self.portable) and r.random() < 0.35:
+            if r.random() < 0.6:
+                cs.append("(orderby %s %s %s)" % (self.col(tbl, INT_COLS[tbl][1]), r.choice(["asc", "desc"]), r.choice(["first", "last"])))
             cs.append("(orderby %s %s)" % (self.col(tbl, "id"), r.choice(["asc", "desc"])))
             cs.append("(limit %d)" % r.choice([1, 2]))
         return "(delete %s)" % " ".join(cs + self.returning(tbl)), False
